@@ -17,6 +17,8 @@ import (
 	"log/slog"
 	"net/http"
 	"runtime/debug"
+	"os"
+	"path/filepath"
 	"sort"
 	"strings"
 	"testing"
@@ -48,6 +50,9 @@ type Profile struct {
 	// number of positions of the authentic log that hold a copy of an earlier
 	// leaf (a log that sequenced an entry twice: the committed leaf's own index
 	// differs from its position).
+	// FileMode: "file" or "gzip+file": the client reads a directory instead of
+	// HTTP; damage is done to the files before each call and undone after it.
+	FileMode string `json:"file_mode,omitempty"`
 	Allow  bool `json:"allow_archival,omitempty"`
 	Misidx int  `json:"misindexed,omitempty"`
 }
@@ -66,6 +71,10 @@ func MakeProfile(prop string, seed uint64, tier string) *Profile {
 	if r.Chance(3, 4) {
 		p.Tag = "faults"
 		p.FaultW = []int{5, 20, 50}[r.Intn(3)]
+	}
+	if p.Size <= 1100 && r.Chance(1, 6) {
+		p.FileMode = []string{"file", "gzip+file"}[r.Intn(2)]
+		p.Tag += "+filemode"
 	}
 	p.Allow = r.Chance(1, 3)
 	if p.Size > 1 && r.Chance(1, 3) {
@@ -320,6 +329,13 @@ func (w *world) ServeHTTP(rw http.ResponseWriter, r *http.Request) {
 		}
 	case "extend":
 		body = append(body, byte(n), 0, 1)
+	case "idxhi":
+		// a well-formed data tile in which one leaf's index has high bits set
+		if c, ok := ref.ParsePath(path); ok && c.Level == -1 {
+			if nb, ok := indexHighBits(body, c.W, n); ok {
+				body = nb
+			}
+		}
 	case "extline":
 		// an extension line nobody signed (the RFC 6962 signature covers size,
 		// root and timestamp only), spliced in after the root line
@@ -362,6 +378,10 @@ func (w *world) main(replay []core.Cmd) {
 	}
 	w.wkey = wk
 	w.buildTruth()
+	if p.FileMode != "" {
+		w.mainFile()
+		return
+	}
 	w.net = simnet.New()
 	w.srv = simnet.Serve(w.net, w)
 	// a per-request timeout, as any production HTTP client has: a stalled
@@ -439,7 +459,7 @@ func (w *world) planCalls() {
 	for i := 0; i < p.Calls; i++ {
 		c := &call{id: i}
 		c.n = p.Size
-		if r.Chance(1, 3) {
+		if r.Chance(1, 3) && p.FileMode == "" {
 			c.n = 1 + int64(r.Intn(int(p.Size)))
 		}
 		switch r.Intn(6) {
@@ -545,7 +565,7 @@ func (w *world) enabled(next int, drain bool) []core.WCmd {
 		if c, ok := ref.ParsePath(op.Key); ok {
 			kinds = append(kinds, "subst", "subst")
 			if c.Level == -1 {
-				kinds = append(kinds, "gzflip", "gztrunc")
+				kinds = append(kinds, "gzflip", "gztrunc", "idxhi", "idxhi")
 			}
 		}
 		if op.Key == "checkpoint" {
@@ -778,3 +798,150 @@ func (w *world) finish() {
 }
 
 var _ = sort.Ints
+
+// indexHighBits re-encodes a data tile with bits 32..39 of one leaf's index set.
+func indexHighBits(raw []byte, width, n int) ([]byte, bool) {
+	es, err := ref.DecodeDataTile(raw, width)
+	if err != nil || len(es) == 0 {
+		return nil, false
+	}
+	j := n % len(es)
+	e := *es[j]
+	e.Index |= int64(1+n%200) << 32
+	es[j] = &e
+	var b []byte
+	for _, x := range es {
+		b = x.AppendTileLeaf(b)
+	}
+	return b, true
+}
+
+// ---------------------------------------------------------------------------
+// file:// modes: the log is a directory; every call runs against a directory in
+// which (when faults are on) one file was damaged, and which is restored after.
+
+func (w *world) mainFile() {
+	p := w.prof
+	dir, err := os.MkdirTemp(os.Getenv("VERIF_TMP"), "clientsim-")
+	if err != nil {
+		panic(err)
+	}
+	defer os.RemoveAll(dir)
+	gzipped := p.FileMode == "gzip+file"
+	files := map[string][]byte{}
+	put := func(rel string, b []byte) {
+		files[rel] = b
+		full := filepath.Join(dir, filepath.FromSlash(rel))
+		os.MkdirAll(filepath.Dir(full), 0o755)
+		if err := os.WriteFile(full, b, 0o644); err != nil {
+			panic(err)
+		}
+	}
+	put("checkpoint", w.checkpoint(0, p.Size))
+	for _, c := range ref.RequiredTiles(p.Size, false) {
+		b, isData, ok := w.object(0, c.Path())
+		if !ok {
+			continue
+		}
+		if isData && gzipped {
+			b = gz(b)
+		}
+		put(c.Path(), b)
+	}
+	cl, err := sunlight.NewClient(&sunlight.ClientConfig{
+		MonitoringPrefix:          p.FileMode + "://" + dir,
+		PublicKey:                 w.key.Public(),
+		AllowRFC6962ArchivalLeafs: p.Allow,
+		Logger:                    slog.New(slog.NewTextHandler(io.Discard, nil)),
+	})
+	if err != nil {
+		panic(err)
+	}
+	w.cl = cl
+	w.planCalls()
+	var rels []string
+	for rel := range files {
+		rels = append(rels, rel)
+	}
+	sort.Strings(rels)
+	for i, c := range w.calls {
+		r := core.NewRand(core.Mix(w.sim.Seed, 0xf11e+uint64(i)))
+		damaged := ""
+		if p.FaultW > 0 && r.Chance(2, 3) {
+			rel := rels[r.Intn(len(rels))]
+			orig := files[rel]
+			b := bytes.Clone(orig)
+			tc, isTile := ref.ParsePath(rel)
+			kind := []string{"flip", "truncate", "extend", "fork", "idxhi", "delete"}[r.Intn(6)]
+			n := r.Intn(1 << 20)
+			switch kind {
+			case "flip":
+				if len(b) > 0 {
+					b[n%len(b)] ^= 1 << uint(n/7%8)
+				}
+			case "truncate":
+				if len(b) > 0 {
+					b = b[:n%len(b)]
+				}
+			case "extend":
+				b = append(b, byte(n), 0, 1)
+			case "fork":
+				if fb, isData, ok := w.object(1, rel); ok {
+					b = fb
+					if isData && gzipped {
+						b = gz(b)
+					}
+				}
+			case "idxhi":
+				if isTile && tc.Level == -1 {
+					raw, _, _ := w.object(0, rel)
+					if nb, ok := indexHighBits(raw, tc.W, n); ok {
+						b = nb
+						if gzipped {
+							b = gz(b)
+						}
+					}
+				}
+			case "delete":
+				b = nil
+			}
+			full := filepath.Join(dir, filepath.FromSlash(rel))
+			if kind == "delete" {
+				os.Remove(full)
+			} else {
+				os.WriteFile(full, b, 0o644)
+			}
+			if !bytes.Equal(b, orig) || kind == "delete" {
+				damaged = rel
+				c.faults++
+				w.sim.Probe("fault.file." + kind)
+			}
+			w.sim.Logf("damage %s %s", kind, rel)
+		}
+		if c.kind == "checkpoint" {
+			if b, err := os.ReadFile(filepath.Join(dir, "checkpoint")); err == nil {
+				w.servedCkpt = [][]byte{b}
+			}
+		}
+		sim := w.sim
+		sim.Trace = append(sim.Trace, core.Cmd{A: "call", N: int64(i)})
+		w.startCall(c)
+		if c.kind == "checkpoint" {
+			if b, err := os.ReadFile(filepath.Join(dir, "checkpoint")); err == nil {
+				w.servedCkpt = [][]byte{b}
+			}
+		}
+		for k := 0; k < 1000 && !c.done; k++ {
+			synctest.Wait()
+			if !c.done {
+				time.Sleep(time.Second)
+			}
+		}
+		sim.Step++
+		w.finish()
+		if damaged != "" {
+			os.WriteFile(filepath.Join(dir, filepath.FromSlash(damaged)), files[damaged], 0o644)
+		}
+		w.sim.Probe("filemode.call")
+	}
+}
